@@ -11,6 +11,16 @@ Streams:
                   identities and box matrices, matrix products): the compositional meaning,
                   invariance under interchange / normal forms (also with snakes inserted on
                   purpose), `Diagram.eval` = identity-on-arrays functor, sums, bubbles.
+* `bubble-eval`   random tensor.Diagrams whose boxes may be `tensor.Bubble`s (nested; several
+                  bubbles around EQUAL insides with different functions; functions whose Python
+                  return type depends on the argument; same-name boxes with different arrays;
+                  shared / equal-but-not-identical objects; arrays that print alike) under
+                  `.eval()`, against the model's `BFunctor.call` (`bfeval`), exact over Z[i];
+* `bubble-layers-model` / `bubble-hypotheses`   `bflayers` (= `BFunctor.ref`, the equality of
+                  `functor_eval_eq_layers_bubbles`) and `bfgood` (its hypotheses) on every case;
+* float stream    the same generator with real float arrays and relu / sigmoid / tanh / ...:
+                  outside the model, oracle only (independent numpy-kron layer composite,
+                  functions re-implemented with `math`), tolerance `tbubblelib.FLOAT_RTOL`.
 """
 import os
 import random
@@ -23,6 +33,7 @@ import numpy as np  # noqa: E402
 from common import Report, lean_obligations, err_class  # noqa: E402
 from core import tok_expr  # noqa: E402
 import tensorlib as tl  # noqa: E402
+import tbubblelib as bl  # noqa: E402
 from tensorlib import eff, size, exact_eq  # noqa: E402
 
 PROP = "C09"
@@ -165,6 +176,34 @@ class Oracle:
             bad = np.argwhere(got != m)
             self.fail(name, "matrix differs at %d of %d entries, first at %r: got %r, expected %r"
                       % (len(bad), got.size, tuple(bad[0]), got[tuple(bad[0])], m[tuple(bad[0])]))
+        return None
+
+
+    def close(self, name, t, dom, cod, m):
+        """Float stream: type and shape as in `same`, entries within `bl.FLOAT_RTOL` of the
+        expected matrix relative to its largest entry (at least 1).  Never `==`."""
+        self.rep.count("oracle.check:" + name)
+        dom, cod = eff(dom), eff(cod)
+        if tl.dims_of(t.dom) != dom or tl.dims_of(t.cod) != cod:
+            return self.fail(name, "dom/cod %r -> %r, expected %r -> %r" % (t.dom, t.cod, dom, cod))
+        a = np.asarray(t.array)
+        if tuple(a.shape) != (tuple(dom + cod) or (1,)):
+            return self.fail(name, "array.shape %r, expected %r" % (a.shape, tuple(dom + cod)))
+        try:
+            got = a.astype(complex).reshape(size(dom), size(cod))
+        except (TypeError, ValueError) as exc:
+            return self.fail(name, "array of dtype %s is not numeric: %r" % (a.dtype, exc))
+        m = np.asarray(m, dtype=complex)
+        if not np.all(np.isfinite(m)):
+            self.rep.count("oracle.skipped:non_finite_reference")
+            return None
+        tol = bl.FLOAT_RTOL * max(1.0, float(np.max(np.abs(m))) if m.size else 1.0)
+        diff = np.abs(got - m)
+        if not np.all(diff <= tol):        # also catches nan in `got`
+            bad = np.argwhere(~(diff <= tol))
+            self.fail(name, "matrix differs (tolerance %.3g) at %d of %d entries, first at %r: "
+                      "got %r, expected %r" % (tol, len(bad), got.size, tuple(bad[0]),
+                                               got[tuple(bad[0])], m[tuple(bad[0])]))
         return None
 
 
@@ -318,6 +357,229 @@ def oracle(rep, rng, case, desc, real_value, real_answer):
         rep.count("oracle.skipped:inexact")
     except Exception as exc:
         orc.fail("bubble:raises", "%r" % (exc,))
+    # (f) two bubbles around this SAME diagram with different functions, side by side, with
+    #     functions whose Python return type depends on the argument; both families
+    try:
+        if ref.size and ref.size <= 36 and rng.random() < 0.5:
+            f1, f2 = bl.exact_fun(rng), bl.exact_fun(rng)
+            spec = lambda f: np.array([complex(f.spec(complex(v))) for v in ref.reshape(-1)],  # noqa: E731
+                                      dtype=complex).reshape(ref.shape)
+            m1, m2 = spec(f1), spec(f2)
+            kw = lambda f: {} if f.py is None else {"func": f.py}  # noqa: E731
+            b1, b2 = tensor.Bubble(d, **kw(f1)), tensor.Bubble(d, **kw(f2))
+            ev = (lambda x: F(x)) if fam == "rigid" else (lambda x: x.eval())  # noqa: E731
+            rep.count("oracle.bubble_pair:%s:%s" % (fam, "other_func" if f1.token != f2.token
+                                                     else "same_func"))
+            orc.same("bubble:alone_nonuniform:" + fam, ev(b1), fdom, fcod, m1)
+            orc.same("bubble:pair_equal_inside:" + fam, ev(b1 @ b2), fdom + fdom, fcod + fcod,
+                     np.kron(m1, m2))
+            if list(dom) == list(cod):
+                orc.same("bubble:sequence_equal_inside:" + fam, ev(b1 >> b2), fdom, fcod, m1 @ m2)
+    except tl.Inexact:
+        rep.count("oracle.skipped:inexact")
+    except Exception as exc:
+        orc.fail("bubble_pair:raises", "%r" % (exc,))
+
+
+# ------------------------------------------------------------------ diagrams with bubbles
+
+def bubble_nontrivial(case):
+    """At least one bubble whose inside has a box, and at least two box occurrences in all."""
+    return bool(case.bubbles) and len(case.all_boxes()) >= 2 and \
+        any(len(ie[3]) >= 1 for _, _, ie in case.bubbles)
+
+
+def make_bubble_cases(seed, quick):
+    rng = random.Random((seed << 8) ^ 0xB0BB1E)
+    n_exact, n_float = (90, 90) if quick else (1000, 1000)
+    n_pa_exact, n_pa_float = (2, 6) if quick else (8, 30)
+    out = []
+    for k in range(n_exact + n_float + n_pa_exact + n_pa_float):
+        subseed = rng.getrandbits(64)
+        sub = random.Random(subseed)
+        if k < n_exact:
+            case = bl.bubble_case(sub, True, quick)
+        elif k < n_exact + n_float:
+            case = bl.bubble_case(sub, False, quick)
+        else:
+            case = bl.printalike_case(sub, k < n_exact + n_float + n_pa_exact)
+        out.append((case, subseed, sub))
+    return out
+
+
+def bubble_oracle(rep, rng, case, desc, real_value, real_answer):
+    from discopy import monoidal, tensor
+    from discopy.rewriting import InterchangerError
+    orc = Oracle(rep, case, desc)
+    cmp = orc.same if case.exact else orc.close
+    _, dom, cod, boxes, offsets = case.e
+    fdom, fcod = case.fdims(dom), case.fdims(cod)
+    try:
+        ref = np.asarray(case.ref_layers(), dtype=complex)
+    except (OverflowError, ValueError) as exc:
+        rep.count("oracle.bubbles:reference_undefined:" + type(exc).__name__)
+        return
+    if real_value is None:
+        # every generated diagram is well typed and every function total on the values met
+        orc.fail("bubbles:raises_on_valid_diagram:" + real_answer,
+                 "evaluation answered %r; the layer-by-layer composite is defined" % real_answer)
+        return
+    # (a) the compositional meaning, bubbles by their defining tensors (recursively)
+    cmp("bubbles:layer_composite", real_value, fdom, fcod, ref)
+    # (b) Diagram.eval is the identity-on-arrays functor; a second build of the diagram
+    F = tensor.Functor(ob=lambda x: x, ar=lambda f: f.array)
+    try:
+        case.fresh()
+        d = case.real_diagram()
+        cmp("bubbles:eval_is_identity_functor", F(d), fdom, fcod, ref)
+    except tl.Inexact:
+        rep.count("oracle.skipped:inexact")
+        return
+    except Exception as exc:
+        orc.fail("bubbles:identity_functor:raises", "%r" % (exc,))
+        return
+    # (c) eval (bubble f inside) = (eval inside).map f, for the bubbles of the case
+    picked = list(case.bubbles)
+    rng.shuffle(picked)
+    for n_b, (b, f, ie) in enumerate(picked[:2]):
+        try:
+            bd, bc = case.fdims(b["dom"]), case.fdims(b["cod"])
+            want = case.apply_spec(f, np.asarray(case.ref_layers(ie), dtype=complex))
+            bub = case.real_box(b)
+            got = bub.eval()
+            cmp("bubbles:eval_bubble", got, bd, bc, want)
+            cmp("bubbles:functor_on_bubble_object", F(bub), bd, bc, want)
+            if n_b:
+                continue
+            ins = case.real_diagram(ie).eval()
+            cmp("bubbles:map_of_evaluated_inside", got, bd, bc,
+                case.apply_spec(f, np.asarray(tl.mat(ins), dtype=complex)))
+            cmp("bubbles:Tensor.map", ins.map(f.py if f.py is not None else (lambda x: int(not x))),
+                bd, bc, case.apply_spec(f, np.asarray(tl.mat(ins), dtype=complex)))
+        except tl.Inexact:
+            rep.count("oracle.skipped:inexact")
+        except OverflowError:
+            rep.count("oracle.bubbles:reference_undefined:OverflowError")
+        except Exception as exc:
+            orc.fail("bubbles:eval_bubble:raises", "bubble %s: %r" % (b["data"], exc))
+    # (c') a second evaluation of the same diagram object gives the same tensor
+    if rng.random() < 0.3:
+        try:
+            cmp("bubbles:second_eval_of_same_object", d.eval(), fdom, fcod, ref)
+        except tl.Inexact:
+            rep.count("oracle.skipped:inexact")
+        except Exception as exc:
+            orc.fail("bubbles:second_eval:raises", "%r" % (exc,))
+    # (d) bubbles are boxes: invariance under interchange and the monoidal normal form
+    for _ in range(1):
+        if len(boxes) < 2:
+            break
+        i = rng.randrange(len(boxes) - 1)
+        try:
+            d2 = d.interchange(i, i + 1, left=rng.random() < 0.5)
+        except InterchangerError:
+            rep.count("oracle.bubbles:interchange:refused")
+            continue
+        except Exception as exc:
+            orc.fail("bubbles:interchange:raises", "%r" % (exc,))
+            continue
+        rep.count("oracle.bubbles:interchange:done")
+        try:
+            cmp("bubbles:invariant:interchange", d2.eval(), fdom, fcod, ref)
+        except tl.Inexact:
+            rep.count("oracle.skipped:inexact")
+        except Exception as exc:
+            orc.fail("bubbles:invariant:interchange:raises", "%r" % (exc,))
+    try:
+        nf = monoidal.Diagram.normal_form(d) if rng.random() < 0.5 else None
+    except Exception as exc:        # not connected: not applicable
+        rep.count("oracle.bubbles:normal_form:skipped:%s" % err_class(exc))
+        nf = None
+    if nf is not None:
+        try:
+            cmp("bubbles:invariant:monoidal_normal_form", F(nf), fdom, fcod, ref)
+        except tl.Inexact:
+            rep.count("oracle.skipped:inexact")
+        except Exception as exc:
+            orc.fail("bubbles:invariant:normal_form:raises", "%r" % (exc,))
+    # (e) sums of diagrams with bubbles, and a bubble around a sum
+    if rng.random() < 0.5:
+        return
+    try:
+        total = d + d
+        cmp("bubbles:sum:Sum.eval", total.eval(), fdom, fcod, ref + ref)
+        cmp("bubbles:sum:functor", F(total), fdom, fcod, ref + ref)
+        if case.exact and ref.size <= 400:
+            f = bl.exact_fun(rng)
+            kw = {} if f.py is None else {"func": f.py}
+            cmp("bubbles:bubble_around_sum", total.bubble(**kw).eval(), fdom, fcod,
+                case.apply_spec(f, ref + ref))
+    except tl.Inexact:
+        rep.count("oracle.skipped:inexact")
+    except Exception as exc:
+        orc.fail("bubbles:sum:raises", "%r" % (exc,))
+
+
+def run_bubbles(rep, bcases, answers):
+    """Streams over diagrams with bubbles.  `answers`: per case (bfeval, bflayers, bfgood)
+    from the driver for the exact cases, None for the float (oracle-only) ones."""
+    agree = 0
+    for (case, subseed, sub), ans in zip(bcases, answers):
+        mode = "exact" if case.exact else "float"
+        desc = dict(case.describe(), subseed=subseed, mode=mode)
+        value = [None]
+
+        def thunk():
+            value[0] = case.real_eval()
+            return value[0]
+        if case.exact:
+            try:
+                real = tl.real_line(thunk, tl.canon_tensor)
+            except tl.Inexact:
+                rep.count("bubbles:skipped:inexact")
+                continue
+        else:
+            try:
+                thunk()
+                real = "ok"
+            except Exception as exc:
+                real = "err " + err_class(exc)
+        # ---- distributions
+        rep.count("family:tensor+bubbles:" + mode)
+        rep.count("bubbles:result:" + (real if real.startswith("err") else "ok"))
+        rep.count("bubbles:count:%s" % (len(case.bubbles) if len(case.bubbles) < 6 else "6+"))
+        rep.count("bubbles:depth:%d" % case.depth())
+        for ft in sorted(bl.features(case) | (case.feat & {"printalike_summarised_array"})):
+            rep.count("bubbles:%s:%s" % (mode, ft))
+        if "printalike_summarised_array" in case.feat:
+            rep.count("bubbles:printalike:reprs_equal=%s" % bl.reprs_equal(case))
+        for _, f, _ in case.bubbles:
+            rep.count("bubbles:func:%s:%s" % (mode, f.name))
+        rep.count("bubbles:objects:%s" % ("shared" if case.share else "equal_not_identical"))
+        rep.count("bubbles:data_style:" + case.data_style)
+        line = case.line("bfeval") if case.exact else "float:%d" % subseed
+        rep.case(line, bubble_nontrivial(case))
+        rep.sample(dict(family="tensor+bubbles:" + mode, request=line[:300], answer=real[:200]))
+        # ---- correspondence (exact cases)
+        if ans is not None:
+            model, lay, good = ans
+            if real != model:
+                rep.disagree("bubble-eval", dict(desc, line=line[:3000]), real[:3000], model[:3000])
+            if lay == model:
+                agree += 1
+            else:
+                rep.disagree("bubble-layers-model", dict(desc, line=line[:3000], bfeval=model[:1500]),
+                             real[:3000], lay[:3000])
+            rep.count("bubbles:hyp:" + good[:20].replace(" ", "="))
+            if good != "ok 1":
+                rep.disagree("bubble-hypotheses", dict(desc, line=case.good_line()[:3000]),
+                             "accepted by discopy: " + real[:200], good[:300])
+        # ---- oracle
+        try:
+            bubble_oracle(rep, sub, case, desc, value[0], real)
+        except tl.Inexact:
+            rep.count("oracle.skipped:inexact")
+    rep.extra["bubble_layers_model_agreements"] = agree
 
 
 # ------------------------------------------------------------------ run
@@ -330,21 +592,47 @@ def run(tier, seed, replay=None):
                 "(boxes, daggers, swaps, spiders, cups, caps) under .eval(); ~30% get a yankable "
                 "snake inserted, ~4% of rigid cases an array of the wrong size. non-trivial = "
                 ">= 2 boxes, at least one box with a wire of dimension >= 2, running width "
-                "(tensor axes of some intermediate type) >= 2; distinct by request line")
+                "(tensor axes of some intermediate type) >= 2; distinct by request line. "
+                "PLUS tensor.Diagrams with bubbles (tbubblelib): boxes, daggers, swaps, spiders, "
+                "cups, caps and tensor.Bubble boxes, nested up to depth 3, built so that one "
+                "diagram contains several bubbles around EQUAL insides with different (or the "
+                "same) functions, the same bubble twice, same-name boxes with different arrays, "
+                "repeated boxes as one shared object or as equal-but-not-identical objects, data "
+                "as ndarray / flat list / nested list, Bubble(...) or .bubble(...), the default "
+                "func or functions whose Python return type depends on the argument; an exact "
+                "half over Z[i] (compared with the model) and a float half (relu, sigmoid, tanh, "
+                "..., oracle only); a few diagrams with two same-name 32x32 boxes whose numpy "
+                "arrays differ only where repr prints '...'. non-trivial there = at least one "
+                "bubble with a non-empty inside and >= 2 box occurrences")
     rep.partial = [
-        "bubbles, sums, invariance under the RIGID normal form (snake removal) and Diagram.eval "
-        "== identity-on-arrays functor are checked by the oracle on real code only (bubbles/sums "
+        "sums, invariance under the RIGID normal form (snake removal) and Diagram.eval "
+        "== identity-on-arrays functor are checked by the oracle on real code only (sums "
         "are not part of the modelled loop); invariance under interchange and the monoidal "
-        "normal form is a Lean theorem (eval_invariant_interchange / _normal_form) and is also "
-        "checked by the oracle",
-        "cups/caps/spiders/bubbles are interpreted by their defining tensors (definitional): "
-        "the functor calls Tensor.cups/caps, Spider arrays and Tensor.map; the oracle checks "
+        "normal form is a Lean theorem (eval_invariant_interchange / _normal_form) for "
+        "bubble-free diagrams and is checked by the oracle for all",
+        "bubbles: modelled (Model/TensorBubble.lean, the function is a parameter) and proved "
+        "(eval_bubble, functor_eval_eq_layers_bubbles, nested) for tensor.Diagrams over Z[i] "
+        "with functions the driver can name (sq, not, conj2, relu, floor-half, x+c, finite "
+        "tables); the FLOAT stream (relu on non-integers, sigmoid, tanh, ...), bubbles in RIGID "
+        "diagrams under dict/callable functors, bubbles around sums and sums of diagrams with "
+        "bubbles are outside the executable model: oracle only (independent numpy-kron "
+        "layer-by-layer composite, functions re-implemented on plain Python numbers)",
+        "cups/caps/spiders are interpreted by their defining tensors (definitional): "
+        "the functor calls Tensor.cups/caps and Spider arrays; the oracle checks "
         "them against independently written matrices",
     ]
     rep.assumptions = [
         "exactness: all entries are Gaussian integers below 2^50, so float64/complex128 "
         "arithmetic is exact and results are compared with ==; a case leaving that range is "
         "skipped and counted, never compared with a tolerance",
+        "float stream: never compared with ==; tolerance tbubblelib.FLOAT_RTOL = 1e-9 relative "
+        "to the largest expected entry (>= 1): arrays are multiples of 1/4 of magnitude <= 2.5 "
+        "so the linear algebra is exact or accurate to ~1e-13, sigmoid/tanh differ between "
+        "numpy (library) and math (oracle) by ~1 ulp; discontinuous functions (not, step, floor) "
+        "are only used in cases without transcendental functions, where every value is an exact "
+        "dyadic rational on both sides",
+        "the fuel of BFunctor.call is the number of bubbles of the request + 1, above any "
+        "nesting depth, so Err.fuel is never produced",
         "numpy itself is trusted; the model's numpy primitives are only cross-validated "
         "against it by the numpy-prims stream of C08",
         "only non-negative axis numbers are modelled (the code under test never passes "
@@ -366,8 +654,16 @@ def run(tier, seed, replay=None):
         sub = random.Random(subseed)
         case, info = make_case(sub, k, quick)
         cases.append((case, info, subseed, sub))
+    bcases = make_bubble_cases(seed, quick)
     drv = tl.Asker()
     try:
+        bidx = [i for i, (c, _, _) in enumerate(bcases) if c.exact]
+        bans = [None] * len(bcases)
+        for cmd in ("bfeval", "bflayers", "bfgood"):
+            got = drv.ask_many([bcases[i][0].good_line() if cmd == "bfgood"
+                                else bcases[i][0].line(cmd) for i in bidx])
+            for i, a in zip(bidx, got):
+                bans[i] = (bans[i] or ()) + (a,)
         lines = [c.line("feval") for c, _, _, _ in cases]
         answers = drv.ask_many(lines)
         # the composite multiplies full layer matrices: only where that is affordable
@@ -450,4 +746,5 @@ def run(tier, seed, replay=None):
             rep.count("oracle.skipped:inexact")
     rep.extra["theorem_hypotheses_met"] = hyp
     rep.extra["layers_model_agreements"] = layers_agree
+    run_bubbles(rep, bcases, bans)
     return rep.finish()
